@@ -83,4 +83,63 @@ def valid (R : Rings) : Op → Bool
   | .listMoveAssign k k2 => decide (Node.head k ∈ nodes R) && decide (Node.head k2 ∈ nodes R)
   | .delList k => decide (Node.head k ∈ nodes R)
 
+/-! ### owners of connections (`Hold`) -/
+
+/-- erase the connections `xs` one after the other -/
+def eraseAll (R : Rings) (xs : List Nat) : Rings := xs.foldl (fun R x => eraseNode R (.elem x)) R
+
+/-- what an owner operation does to the rings: only connecting and the destruction of connections change them -/
+def holdStep (own : Nat → List Nat) (R : Rings) : Hold.Op → Rings
+  | .sig op => step R op.toList
+  | .connect _ x s _ _ => step R (.newElem x s)
+  | .release o i => eraseAll R ((own o)[i]?).toList
+  | .clear o => eraseAll R (own o)
+  | .transfer _ _ _ => R
+  | .swap _ _ => R
+
+/-- who holds what after an owner operation (pure bookkeeping, no pointers) -/
+def ownStep (own : Nat → List Nat) : Hold.Op → (Nat → List Nat)
+  | .sig _ => own
+  | .connect o x _ _ _ => Hold.setOwn own o (own o ++ [x])
+  | .release o i => Hold.setOwn own o ((own o).eraseIdx i)
+  | .clear o => Hold.setOwn own o []
+  | .transfer o i o' =>
+    match (own o)[i]? with
+    | none => own
+    | some x =>
+      if o' = o then Hold.setOwn own o ((own o).eraseIdx i ++ [x])
+      else Hold.setOwn (Hold.setOwn own o ((own o).eraseIdx i)) o' (own o' ++ [x])
+  | .swap o o' => fun i => if i = o then own o' else if i = o' then own o else own i
+
+/-- side conditions of an owner operation: lifetimes of the signal objects, a fresh connection id, an index inside the owner -/
+def holdValid (own : Nat → List Nat) (R : Rings) : Hold.Op → Bool
+  | .sig (.connect ..) => false
+  | .sig (.disconnect ..) => false
+  | .sig op => valid R op.toList
+  | .connect _ x s _ _ => valid R (.newElem x s)
+  | .release o i => decide (i < (own o).length)
+  | .clear _ => true
+  | .transfer o i _ => decide (i < (own o).length)
+  | .swap _ _ => true
+
+/-- "no callback lets go of its own connection", checked along the run of the call loop: the one thing a callback may not
+do (its connection object — and with it the `fcppt::function` that is executing — would be destroyed under its feet, and
+`++it` would read the freed hook).  A precondition on the caller's callbacks, not on the library. -/
+def loopSafe (act : Nat → Hold.Act) (h : Node) : Nat → Hold.State → Node → Bool
+  | 0, _, _ => true
+  | fuel + 1, st, cur =>
+    if cur = h then true else
+    match cur with
+    | .head _ => true
+    | .elem x =>
+      match st.sig.conn x with
+      | none => true
+      | some c =>
+        (match act c.callback with
+          | .reset o => !(st.own o).contains x
+          | _ => true) &&
+        (match Hold.runAct st (act c.callback) with
+          | .ok st' => loopSafe act h fuel st' (st'.sig.store.next cur)
+          | .error _ => true)
+
 end Fcppt.C11.Spec
